@@ -2,7 +2,9 @@
 
 from __future__ import annotations
 
+import json
 import math
+import os
 
 import numpy as np
 from hypothesis import strategies as st
@@ -116,6 +118,7 @@ def a_check(case):
     rng = np.random.default_rng(case["seed"])
     U = rng.standard_normal((1, 12)) + 1j * rng.standard_normal((1, 12))
     nfc = 0.7 if case["forced"] else 0.0
+    outs_a = {}
     for x64 in (False, True):
         sess = "float64" if x64 else "float32"
         with jax.enable_x64(x64):
@@ -143,12 +146,26 @@ def a_check(case):
                 out = np.asarray(out)
                 res.true("step_finite:" + sess, bool(np.all(np.isfinite(out))), key=key + ":" + sess + ":step", msg="non-finite step of an O(1) state")
                 res.true("step_dtype:" + sess, out.dtype == want_c, key=key + ":" + sess + ":dtype", msg=str(out.dtype))
+                outs_a[sess] = out.astype(np.complex128)
             ok, out0 = res.lib("step_fourier_zero", integ.step_fourier, jnp.zeros((1, 12), dtype=cdt), key=key)
             if ok:
                 out0 = np.asarray(out0)
                 res.true("zero_state_finite:" + sess, bool(np.all(np.isfinite(out0))), key=key + ":" + sess + ":zero_state")
                 if not case["forced"] or p == 0:
                     res.claim("zero_state_maps_to_zero:" + sess, float(np.max(np.abs(out0))) if np.all(np.isfinite(out0)) else float("inf"), 0.0, key=key + ":" + sess + ":zero_state")
+    if "float32" in outs_a and "float64" in outs_a and np.all(np.isfinite(outs_a["float32"])) and np.all(np.isfinite(outs_a["float64"])):
+        # single vs double precision, mode by mode (the nonlinearity acts per mode, Lipschitz constant <= 1.25), on the
+        # modes whose nonlinear increment does not amplify: 1.25 * dt * |phi_1(z)| <= 1
+        o32, o64 = outs_a["float32"][0], outs_a["float64"][0]
+        with np.errstate(all="ignore"):
+            ph1 = np.abs(orc.phi1(z))
+        okm = (1.25 * dt * ph1 <= 1.0) & (z.real <= 0)
+        if np.any(okm):
+            nmax = 0.75 * np.maximum(np.abs(U[0]), np.abs(o64)) + abs(nfc)
+            tol_m = K_TOL * (2.0 ** max(p, 1)) * EPS32 * (1 + np.abs(z.imag)) * (np.abs(U[0]) + np.abs(o64) + dt * ph1 * nmax)
+            r_ = np.where(okm, np.abs(o32 - o64) / tol_m, 0.0)
+            j_ = int(np.argmax(r_))
+            res.claim("float32_step_agrees_with_float64_step", float(r_[j_]), 1.0, key=key + ":precision", msg="worst mode z=%s" % z[j_])
     return res
 
 
@@ -393,8 +410,74 @@ def b_check(case):
     return res
 
 
+# ------------------------------------------------------------------ x64 enabled AFTER the library was imported
+
+LATE_SCRIPT = r"""
+import json, sys
+import jax
+assert not jax.config.jax_enable_x64, "subprocess must start in the default (float32) session"
+import exponax  # imported while the session is still single precision
+jax.config.update("jax_enable_x64", True)
+from pbt.props import c02
+cases = json.load(open(sys.argv[1]))
+out = []
+for c in cases:
+    r = c02.a_check(c)
+    out.append(dict(fails=r.fails, margins=r.margins, nclaims=dict(r.nclaims)))
+json.dump(out, open(sys.argv[2], "w"))
+"""
+
+
+def late_strata(tier):
+    import pbt.props.c02 as c02
+
+    sel = [s_ for s_ in c02.a_strata(tier) if s_["order"] >= 1 and s_["z"] in ("real_neg", "imag", "left_half", "special", "mixed")]
+    if tier == "quick":
+        sel = sel[::9]
+    return [dict(s_, id=s_["id"] + "-late_x64") for s_ in sel]
+
+
+def late_strategy(stratum, tier):
+    import pbt.props.c02 as c02
+
+    return st.lists(c02.a_strategy(stratum, tier), min_size=3, max_size=3).map(lambda cs: dict(cases=cs))
+
+
+def late_check(case):
+    """'float64 once x64 is enabled': the flag may be switched on after `import exponax` (the usual order in scripts and
+    notebooks).  A fresh interpreter imports exponax in the default session, enables x64 and evaluates the C02
+    integrator comparison (exact phi functions, tolerance 1e-10): a constant or table created at import time in single
+    precision shows up as a 1e-8 error although every dtype reads float64."""
+    import subprocess
+    import sys
+    import tempfile
+
+    res = R()
+    res.nontrivial = True
+    res.tag("late_x64")
+    env = {k: v for k, v in os.environ.items() if k != "JAX_ENABLE_X64"}
+    with tempfile.TemporaryDirectory() as td:
+        fin, fout = os.path.join(td, "in.json"), os.path.join(td, "out.json")
+        json.dump(case["cases"], open(fin, "w"))
+        pr = subprocess.run([sys.executable, "-c", LATE_SCRIPT, fin, fout], env=env, capture_output=True, text=True, timeout=1800)
+        if pr.returncode != 0 or not os.path.exists(fout):
+            raise RuntimeError("late-x64 subprocess failed (harness error): " + pr.stderr[-2000:])
+        outs = json.load(open(fout))
+    for o in outs:
+        for cid, n_ in o["nclaims"].items():
+            res.nclaims["late_x64:" + cid] += n_
+        for cid, m_ in o["margins"].items():
+            if m_ > res.margins.get("late_x64:" + cid, 0.0):
+                res.margins["late_x64:" + cid] = m_
+            res.margins.setdefault("late_x64:" + cid, 0.0)
+        for f_ in o["fails"]:
+            res.fails.append(dict(claim="late_x64:" + f_["claim"], key="C19:late_x64:" + f_["key"], resid=f_["resid"], tol=f_["tol"], msg=f_["msg"]))
+    return res
+
+
 SUBS = [
     Sub("integrator_stiffness", a_check, strata=a_strata, strategy=a_strategy, n=(6, 40)),
     Sub("stepper_precision", b_check, strata=b_strata, strategy=b_strategy, n=(1, 2)),
     Sub("extreme_domain_precision", b_check, strata=c_strata, strategy=b_strategy, n=(2, 3)),
+    Sub("late_x64", late_check, strata=late_strata, strategy=late_strategy, n=(1, 2)),
 ]
